@@ -684,6 +684,7 @@ impl<'a> Gen<'a> {
     fn atom_expr(&mut self, v: &str) -> String {
         let safe = !self.unsafe_vars.contains(v);
         let k = self.r.below(100);
+        if k < 4 { return format!("?{v}") }            // effective boolean value of whatever ?v is bound to (type error for IRIs etc.)
         if k < 12 { return format!("BOUND(?{v})") }
         if k < 18 { return format!("!BOUND(?{v})") }
         if k < 30 {
@@ -794,6 +795,19 @@ fn directed() -> Vec<(&'static str, usize, String)> {
         ("graph-var-scope", 1, "SELECT * { GRAPH ?g { SELECT ?s { ?s <tag:q> ?g } } }".into()),
         ("graph-var-scope", 1, "SELECT * { GRAPH ?g { SELECT ?s { ?s <tag:p> ?o } } }".into()),
         ("graph-var-scope", 1, "SELECT * { GRAPH ?g { ?s <tag:p> ?o BIND(1 AS ?g) } }".into()),
+        // DISTINCT over partially bound rows: the same term under different variables must not collide
+        ("distinct-partial", 1, "SELECT DISTINCT * { { ?a <tag:p> <tag:b> } UNION { ?e <tag:p> <tag:b> } }".into()),
+        ("distinct-partial", 1, "SELECT DISTINCT ?a ?e { { ?a <tag:p> ?o } UNION { ?e <tag:p> ?o } }".into()),
+        ("distinct-partial", 1, "SELECT DISTINCT * { { ?s <tag:p> ?a } UNION { ?s <tag:p> ?e } UNION { ?s <tag:q> ?a } }".into()),
+        ("distinct-partial", 1, "SELECT DISTINCT ?k ?a { ?s <tag:n> ?a BIND(?a + 1 AS ?k) }".into()),
+        // FILTER on a term without effective boolean value (IRI, blank node, dateTime, quoted triple): type error = false
+        ("filter-ebv", 1, "SELECT * { ?s <tag:p> ?o FILTER(?o) }".into()),
+        ("filter-ebv", 1, "SELECT * { ?s ?p ?o FILTER(?p) }".into()),
+        ("filter-ebv", 1, "SELECT * { ?s <tag:n> ?o FILTER(?o) }".into()),
+        ("filter-ebv", 1, "ASK { ?s ?p ?o FILTER(<tag:a>) }".into()),
+        ("filter-ebv", 1, "SELECT * { ?s ?p ?o FILTER(?s) }".into()),
+        ("filter-ebv", 1, "SELECT * { ?s ?p ?o FILTER(\"\") }".into()),
+        ("filter-ebv", 1, "SELECT * { ?s ?p ?o FILTER(\"x\") }".into()),
         ("graph", 1, "SELECT * { GRAPH ?g { ?s <tag:q> ?g } }".into()),
         ("graph", 1, "SELECT * { GRAPH ?g { GRAPH ?g { ?s <tag:q> ?o } } }".into()),
         ("graph", 1, "SELECT * { GRAPH ?g { GRAPH ?h { ?s <tag:q> ?o } } }".into()),
